@@ -103,6 +103,7 @@ def handle (os : Option Sess) (toks : List String) : Option Sess × String :=
 end Driver.C07
 
 def main : IO Unit := Driver.Ctl.runLoopState (none : Option Driver.C07.Sess) fun st toks =>
-  match toks with
+  -- tokens starting with '#' are comments (the harness tags requests with the fault plan)
+  match toks.filter (fun t => !t.startsWith "#") with
   | "c07" :: rest => Driver.C07.handle st rest
   | _ => (st, "bad-op")
